@@ -212,7 +212,7 @@ def c04(tier):
 
 def c09(tier):
     vlib.standard(
-        "C09", tier, "c09", ["Properties_C09.v", "Proofs_Edit.v"],
+        "C09", tier, "c09", ["Properties_C09.v", "Proofs_Edit.v", "Proofs_Prec.v"],
         assume=[
             "STATED LIMIT: 'the substituted program parses and type-checks' is not a theorem (no formal Go grammar/type system is available here); it is decided per diagnostic by go/parser and go/types in the oracle",
             "commentFormatting is modelled for ASCII case folding and ASCII white space",
